@@ -322,3 +322,74 @@ def callee_text(call):
         return norm_text(call.func)
     except Exception:
         return ""
+
+
+# ---------------------------------------------------------------------------------------
+# DAG-aware helpers: expansions share sub-trees (every use of a local points at the same
+# expanded node), so walking / hashing must visit each node object once.
+# ---------------------------------------------------------------------------------------
+
+
+def uwalk(e):
+    """Like ast.walk but visits every node *object* once (linear in the DAG size)."""
+    seen = set()
+    stack = [e]
+    while stack:
+        n = stack.pop()
+        if id(n) in seen:
+            continue
+        seen.add(id(n))
+        yield n
+        for c in ast.iter_child_nodes(n):
+            stack.append(c)
+
+
+_HASH = {}
+
+
+def shash(e):
+    """Structural hash (equal trees get equal hashes), memoised per node object."""
+    k = id(e)
+    h = _HASH.get(k)
+    if h is not None and h[0] is e:
+        return h[1]
+    if isinstance(e, ast.AST):
+        parts = [type(e).__name__]
+        for f in e._fields:
+            if f == "ctx":
+                continue
+            v = getattr(e, f, None)
+            if isinstance(v, list):
+                parts.append(tuple(shash(x) for x in v))
+            else:
+                parts.append(shash(v))
+        r = hash(tuple(parts))
+    elif isinstance(e, list):
+        r = hash(tuple(shash(x) for x in e))
+    else:
+        r = hash((type(e).__name__, repr(e)))
+    if isinstance(e, ast.AST):
+        _HASH[k] = (e, r)
+    return r
+
+
+def size_upto(e, limit):
+    n = 0
+    for _ in uwalk(e):
+        n += 1
+        if n > limit:
+            return n
+    return n
+
+
+def brief(e, limit=400):
+    """Text of small expressions; a stable placeholder for huge ones."""
+    if e is None:
+        return "None"
+    if size_upto(e, limit) <= limit:
+        return norm_text(e)
+    return "<%s #%x>" % (type(e).__name__, shash(e) & 0xFFFFFF)
+
+
+def unames(e):
+    return {n.id for n in uwalk(e) if isinstance(n, ast.Name)}
